@@ -269,6 +269,20 @@ func main() {
 		fmt.Printf("harness %s: paths=%d %v asserts=%d (syntactic %d, solver %d) queries=%d sat=%d unsat=%d unknown=%d solver=%.1fs wall=%.1fs exhausted=%v\n",
 			h.Fn, rep.Paths, rep.ByStatus, rep.Asserts, rep.Syntactic, rep.SolverUnsat, rep.Queries, rep.Sat, rep.Unsat, rep.Unknown,
 			rep.SolverTime.Seconds(), rep.Wall.Seconds(), rep.Exhausted)
+		if *verbose {
+			type kv struct {
+				k string
+				v int
+			}
+			var l []kv
+			for k, v := range rep.WhyCount {
+				l = append(l, kv{k, v})
+			}
+			sort.Slice(l, func(a, b int) bool { return l[a].v > l[b].v })
+			for k := 0; k < len(l) && k < 25; k++ {
+				fmt.Printf("   solver-decided branch site %-40s %d\n", l[k].k, l[k].v)
+			}
+		}
 		for _, p := range rep.Problems {
 			inconclusive = append(inconclusive, h.Fn+": "+p)
 		}
